@@ -174,7 +174,7 @@ def keyid_mutants(rng, blob_obj):
     # protection descriptor values
     hostile = ["S-1-5" + "-00000000021" * 15 + "!", "S-1-5" + "-0000000000000000000021" * 15 + "x", "S-1-" + "0" * 40 + "5-21!", "S-1-5" + "-1" * 15 + "-",
                "S-1-5-" + "0" * 60 + "!", "S-1-5" + "-0" * 15 + "-", "S-1-5" + "-00000000021" * 14 + "-4294967296", "S-1-5-" + "7" * 4000, "S-1-5" + "-0000000001" * 15 + "-1",
-               "S-1-0000000000000005" + "-000000000000021" * 15 + " "]
+               "S-1-0000000000000005" + "-000000000000021" * 15 + " ", "S-1-5-{}", "S-1-5-21-{1}-{2}", "{sid}", "S-1-5-{0.real}", "S-1-5-%s", "S-1-5-4294967296-{x}"]
     for sid in ["S-1-5-4294967296", "S-1-281474976710656-1", "S-1-5-18\n", "", "S-1-5", "S-1-5-" + "-".join(["1"] * 16), "S-1-5-٣", "x" * 300] + hostile:
         out.append(dataclasses.replace(blob_obj, protection_descriptor=SIDDescriptor(sid)).pack())
     for alg in ("1.2.3", "2.16.840.1.101.3.4.1.46"):
